@@ -1520,6 +1520,9 @@ func (pc *PartitionContext) removeAllocation(release *si.AllocationRelease) ([]*
 		}
 		if release.TerminationType == si.TerminationType_PLACEHOLDER_REPLACED {
 			confirmed = alloc.GetRelease()
+		}
+		// a placeholder without a replacement linked to it is handled as a normal removal
+		if release.TerminationType == si.TerminationType_PLACEHOLDER_REPLACED && confirmed != nil {
 			// we need to check the resources equality
 			delta := resources.Sub(confirmed.GetAllocatedResource(), alloc.GetAllocatedResource())
 			// Any negative value in the delta means that at least one of the requested resource in the
